@@ -16,7 +16,7 @@
                                            e (extract_sequence), v (has_valid_stop); the rest of the line (the CDS
                                            literal for the implementation) is ignored: `letters` IS the coding sequence
                                            -> ok <answer>…           n:<k> / Sequence:<letters> / str:<letters> / true|false / err!
-    merge <own> <other>                   dict literal: <nkeys> (key <nvals> v…)…      `_merge_qualifiers` AS CODED (shallow)
+    merge <own> <other>                   dict literal: <nkeys> (key <nvals> v…)…      `_merge_qualifiers` as coded (copies the sets)
                                            -> ok <result dict> <own dict after>
 -/
 import BioCantor.Driver.Proto
@@ -26,17 +26,17 @@ namespace BioCantor.Driver.Cache
 open BioCantor BioCantor.Proto BioCantor.Model.Cache
 open BioCantor.Spec.Cache (Ev Ans CdsOp)
 
-/-! The two switches below make the model mirror THE CODE THAT EXISTS in /repo.  Flip them (and only them) when the
-    corresponding defect is repaired there; the theorems in Props/C10.lean cover both settings
-    (`extract_history_independent_repaired`, `merge_deep_preserves_operand`). -/
+/-! The two switches below make the model mirror THE CODE THAT EXISTS in /repo (both defects are repaired there, so both
+    are `true`).  Setting one to `false` gives the model of the code before the repair — only useful to reproduce the
+    old behaviour next to a scratch copy of /repo with the fix reverted. -/
 
-/-- cds.py:456-459 — does the cached-codon path of `extract_sequence` wrap its result in a `Sequence`?
-    `false` on the pinned tree (F-C10a). -/
-def pathBWrapsAsCoded : Bool := false
+/-- cds.py:456-460 — the cached-codon path of `extract_sequence` is guarded by "at least one codon" and wraps its
+    result in a `Sequence` (`CdsCfg.repaired`).  `true` since a04ad26 + 588ca9c; `false` reproduces defect F-C10a. -/
+def pathBWrapsAsCoded : Bool := true
 
-/-- gene/interval.py:780 — does `_merge_qualifiers` copy the qualifier SETS (not only the dict)?
-    `false` on the pinned tree (F-C10b). -/
-def mergeCopiesSetsAsCoded : Bool := false
+/-- gene/interval.py:780 — `_merge_qualifiers` copies the qualifier SETS, not only the dict.
+    `true` since b1a89c3; `false` reproduces defect F-C10b. -/
+def mergeCopiesSetsAsCoded : Bool := true
 
 def pureF (k : Int) : Int := 3 * k + 1
 def pureM (o k : Int) : Int := 100 * o + k
